@@ -2,14 +2,19 @@
 """copy confirmed seeded changes from /tmp/seedout into /verif/seeded/<id>/ (patch.diff, demo.py, meta.json)"""
 import json, os, re, shutil, sys
 log = {}
-for line in open("/tmp/seedout/confirm.log"):
-    m = re.match(r"(C\d\d)/([ab]) clean_demo_exit=(\d+) mutant_demo_exit=(\d+) tests='(.*)'", line.strip())
-    if m:
-        log[(m.group(1), m.group(2))] = (int(m.group(3)), int(m.group(4)), m.group(5))
+SRC = {}
+for base in ("/tmp/seedout", "/tmp/seedout2"):
+    if not os.path.exists(base + "/confirm.log"):
+        continue
+    for line in open(base + "/confirm.log"):
+        m = re.match(r"(C\d\d)/([abcd]) clean_demo_exit=(\d+) mutant_demo_exit=(\d+) tests='(.*)'", line.strip())
+        if m:
+            log[(m.group(1), m.group(2))] = (int(m.group(3)), int(m.group(4)), m.group(5))
+            SRC[(m.group(1), m.group(2))] = base
 for (p, x), (c, mu, t) in sorted(log.items()):
     if c != 0 or mu == 0 or "109 passed" not in t:
         print("skip", p, x); continue
-    src = "/tmp/seedout/%s/%s" % (p, x); dst = "/verif/seeded/%s-%s" % (p, x)
+    src = "%s/%s/%s" % (SRC[(p, x)], p, x); dst = "/verif/seeded/%s-%s" % (p, x)
     os.makedirs(dst, exist_ok=True)
     shutil.copy(src + "/patch.diff", dst + "/patch.diff"); shutil.copy(src + "/demo.py", dst + "/demo.py")
     try: am = json.load(open(src + "/meta.json"))
